@@ -429,8 +429,8 @@ pub fn run_c17(ctx: &Ctx) -> i32 {
     let mut plans: Vec<(Cfg, Init, Vec<usize>, Option<usize>)> = vec![
         (Cfg::Mem, vec![], vec![2, 3], None),
         (Cfg::alt(Cfg::Mem, "/Z"), vec![], vec![2], None),
-        (ov.clone(), vec![], vec![2], if thorough { None } else { Some(2) }),
-        (ov.clone(), lower_prefix.clone(), vec![2], if thorough { None } else { Some(2) }),
+        (ov.clone(), vec![], vec![2], None),
+        (ov.clone(), lower_prefix.clone(), vec![2], None),
         (Cfg::Phys, vec![], vec![2, 3], None),
     ];
     if thorough {
@@ -445,6 +445,9 @@ pub fn run_c17(ctx: &Ctx) -> i32 {
     let mut programs: Vec<(String, MkdirProgram, Option<usize>)> = vec![];
     for (cfg, init, ks, bound) in &plans {
         for k in ks {
+            // quick tier: overlays (long call chains per create_dir) use the 4 paths that share prefixes of every length
+            let small = !thorough && cfg.has_overlay();
+            let pool: Vec<&'static str> = if small { vec!["a", "a/b", "a/b/c", "a/x"] } else { pool.clone() };
             for ms in multisets(pool.len(), *k) {
                 let label = format!("{}{} x {} threads{}", cfg.label(), if init.is_empty() { "" } else { " (shared prefix only in the lower layer)" }, k, bound.map(|b| format!(" (preemption bound {})", b)).unwrap_or_default());
                 programs.push((label, MkdirProgram { cfg: cfg.clone(), init: init.clone(), paths: ms.iter().map(|i| pool[*i]).collect() }, *bound));
